@@ -237,6 +237,45 @@ func vfC12Wrappers(c int) {
 	vfAssert("multipolygon-collapsed-member-dropped", len(smp) == 0)
 	r := s.Ring(orb.Ring{{0, 0}, {1, 0.001}, {2, 0}, {0, 0}})
 	vfAssert("ring-keeps-endpoints", len(r) >= 2 && r[0] == r[len(r)-1])
+	// several holes: the ones that collapse are dropped, the others stay, in order, wherever they are listed
+	s1 := DouglasPeucker(1)
+	outer := orb.Ring{{0, 0}, {10, 0}, {10, 10}, {0, 10}, {0, 0}}
+	tiny := orb.Ring{{4, 4}, {4.1, 4}, {4.1, 4.1}, {4, 4}}
+	big := orb.Ring{{6, 6}, {9, 6}, {9, 9}, {6, 9}, {6, 6}}
+	big2 := orb.Ring{{1, 6}, {3, 6}, {3, 9}, {1, 9}, {1, 6}}
+	for k, holes := range [][]orb.Ring{{tiny, big}, {big, tiny}, {tiny, big, big2}, {big, tiny, big2}, {tiny, tiny, big}} {
+		p := orb.Polygon{outer.Clone()}
+		var want []orb.Ring
+		for _, h := range holes {
+			p = append(p, h.Clone())
+			if len(h) > 4 {
+				want = append(want, h)
+			}
+		}
+		for via := 0; via < 3; via++ {
+			var got orb.Polygon
+			switch via {
+			case 0:
+				got = s1.Polygon(p.Clone())
+			case 1:
+				mp := s1.MultiPolygon(orb.MultiPolygon{p.Clone()})
+				vfAssert("multipolygon-keeps-the-polygon", len(mp) == 1)
+				if len(mp) == 1 {
+					got = mp[0]
+				}
+			default:
+				got, _ = s1.Simplify(p.Clone()).(orb.Polygon)
+			}
+			id := "holes#" + strconv.Itoa(k) + "-via#" + strconv.Itoa(via)
+			vfAssert("surviving-holes-count "+id, len(got) == 1+len(want))
+			if len(got) == 1+len(want) {
+				vfAssert("outer-ring-kept "+id, got[0].Equal(outer))
+				for i, w := range want {
+					vfAssert("surviving-hole-kept-in-order "+id, got[1+i].Equal(w))
+				}
+			}
+		}
+	}
 }
 
 // ---- through the public methods (LineString / Ring wrappers), kernels uninterpreted ----
